@@ -74,7 +74,29 @@ def memo_key_obligations():
                             and isinstance(n.value, ast.Attribute) \
                             and isinstance(n.value.value, ast.Name) and n.value.value.id == "self":
                         writes.setdefault(n.value.attr, []).append(ast.unparse(n.slice))
+                params = {a.arg for a in fn.args.args + fn.args.kwonlyargs} - {"self"}
+                # simple aliases `k = <expr>` (assigned once) are looked through
+                assigned = {}
+                for n in ast.walk(fn):
+                    if isinstance(n, ast.Assign) and len(n.targets) == 1 and isinstance(n.targets[0], ast.Name):
+                        assigned.setdefault(n.targets[0].id, []).append(ast.unparse(n.value))
                 for attr in sorted(set(reads) & set(writes)):
+                    # M1 (determinacy): the key must determine the argument the cached result was computed
+                    # from - it is that parameter itself (AST nodes: the node object), or, for the schema's
+                    # maps, the name of a type parameter (type names are unique within a schema, A_TYPES).
+                    # A key derived otherwise (e.g. the *name* of a fragment definition: two definitions may
+                    # share a name) lets one argument answer for another.
+                    keys = set(reads[attr]) | set(writes[attr])
+                    resolved = set()
+                    for k in keys:
+                        while k in assigned and len(assigned[k]) == 1 and k not in params:
+                            k = assigned[k][0]
+                        resolved.add(k)
+                    ok1 = all(k in params or (rel == "graphql.type.schema" and k.endswith(".name")
+                                              and k[:-5] in params) for k in resolved)
+                    out.append(_finite(f"{rel}.{fn.name}", "MEMO-M1",
+                                       f"the key of self.{attr} determines the argument it caches for",
+                                       ok1, f"keys {sorted(resolved)}, parameters {sorted(params)}"))
                     ok = set(reads[attr]) == set(writes[attr]) and len(set(reads[attr])) == 1
                     out.append(_finite(f"{rel}.{fn.name}", "MEMO-KEY",
                                        f"self.{attr} is filled under the key it is read with",
